@@ -114,7 +114,7 @@ def fmt(v, depth=0):
 
 
 class Interp:
-    def __init__(self, prog, hook=None, max_steps=200000, max_depth=6, loop_bound=2, opaque=None):
+    def __init__(self, prog, hook=None, max_steps=200000, max_depth=6, loop_bound=2, opaque=None, record_backedge=False):
         """hook(interp, fn, term, args) -> None | value | Fork([...]); opaque: predicate on callee Fn -> do not descend"""
         self.prog = prog
         self.hook = hook
@@ -124,6 +124,7 @@ class Interp:
         self.loop_bound = loop_bound
         self.steps = 0
         self.serial = 0
+        self.record_backedge = record_backedge
 
     # -- values of places / operands
     def place_val(self, env, pl):
@@ -469,18 +470,40 @@ class Interp:
                         if val == x:
                             nb = tg
                 else:
+                    # path condition: a later switch on the same (pure) term must agree with the earlier decision
+                    decided = env.get('__decided') or {}
+                    prev = decided.get(v)
+                    listed = [val for val, _ in t['targets']]
+                    cands = []
+                    if prev is not None and prev[0] == 'is':
+                        tgt = t['otherwise']
+                        for val, tg in t['targets']:
+                            if val == prev[1]:
+                                tgt = tg
+                        cands = [(prev[1] if prev[1] in listed else None, tgt, prev)]
+                    else:
+                        excluded = prev[1] if prev is not None else frozenset()
+                        for val, tg in t['targets']:
+                            if val not in excluded:
+                                cands.append((val, tg, ('is', val)))
+                        cands.append((None, t['otherwise'], ('not', frozenset(excluded) | frozenset(listed))))
                     seen = []
-                    for val, tg in t['targets'] + [[None, t['otherwise']]]:
-                        if tg in seen:
+                    for val, tg, dec in cands:
+                        if (tg, dec[0] == 'is') in seen and dec[0] != 'is':
                             continue
-                        seen.append(tg)
+                        seen.append((tg, dec[0] == 'is'))
                         key = (b, tg)
-                        if edges.get(key, 0) >= self.loop_bound:
+                        if edges.get(key, 0) >= self.loop_bound + 1:
                             continue
                         e2 = dict(edges)
                         e2[key] = e2.get(key, 0) + 1
+                        env2 = dict(env)
+                        if v != UNK:
+                            nd = dict(decided)
+                            nd[v] = dec
+                            env2['__decided'] = nd
                         eff2 = effects + (('<branch>', None, (v, C(val) if val is not None else SYM('otherwise')), t['span']),)
-                        self._run(fn, tg, dict(env), depth, out, eff2, e2)
+                        self._run(fn, tg, env2, depth, out, eff2, e2)
                     return
             elif k == 'unreachable':
                 return
@@ -488,9 +511,11 @@ class Interp:
                 out.append((UNK, effects))
                 return
             key = (b, nb)
-            if nb <= b:
-                # back edge: bound iterations
+            if nb <= b and fn.dominates(nb, b):
+                # back edge (target dominates source): bound iterations
                 if edges.get(key, 0) >= self.loop_bound:
+                    if self.record_backedge:
+                        out.append((('backedge', nb), effects))
                     return
                 edges = dict(edges)
                 edges[key] = edges.get(key, 0) + 1
